@@ -313,6 +313,44 @@ impl LbCase {
     }
 }
 
+/// `lb2` case line: the main case's fields plus the earlier reader's `pinp= pscript= pops=`.
+pub fn lb2_case_str(c: &LbCase, pre: &LbCase) -> String {
+    format!(
+        "lb2 {} pinp={} pscript={} pops={}",
+        &c.case_str()[3..],
+        hex(&pre.inp),
+        script_str(&pre.script),
+        ops_str(&pre.ops)
+    )
+}
+
+pub fn parse_lb2(parts: &[&str]) -> Option<(LbCase, LbCase)> {
+    let c = LbCase::parse(parts)?;
+    let get = |k: &str| parts.iter().find_map(|p| p.strip_prefix(k).and_then(|r| r.strip_prefix('=')));
+    let renamed: Vec<String> = vec![
+        format!("inp={}", get("pinp")?),
+        format!("script={}", get("pscript")?),
+        format!("ops={}", get("pops")?),
+    ];
+    let mut parts2: Vec<&str> = parts.iter().copied().filter(|p| !(p.starts_with("inp=") || p.starts_with("script=") || p.starts_with("ops="))).collect();
+    for r in &renamed {
+        parts2.push(r);
+    }
+    let pre = LbCase::parse(&parts2)?;
+    Some((c, pre))
+}
+
+/// Two readers in sequence on one buffer: the first one usually leaves binary data / a grown vector behind.
+pub fn gen_lb2_case(rng: &mut Rng, bin: Bin) -> (LbCase, LbCase) {
+    let pre = gen_lb_case(rng, bin, false);
+    let mut c = gen_lb_case(rng, bin, false);
+    c.cap = pre.cap;
+    c.lt = pre.lt;
+    c.alloc = pre.alloc;
+    c.ops = gen_ops_after(rng, &c, Some(&pre));
+    (c, pre)
+}
+
 /// The input as the caller is promised to see it (Rust twin of the Lean `view`).
 pub fn view(bin: Bin, lt: u8, inp: &[u8]) -> Vec<u8> {
     match bin {
@@ -352,7 +390,35 @@ fn probe_new(c: &LbCase) -> LineBufferProbe {
 /// Generate an op sequence *while* driving the real buffer (so that every `consume` is valid),
 /// in the style of `ReadByLine` (consume a prefix of the buffer, refill) plus freer variations.
 pub fn gen_ops(rng: &mut Rng, c: &LbCase) -> Vec<LbOp> {
+    gen_ops_after(rng, c, None)
+}
+
+/// Drive `pre` on a probe (if given), `clear` it, return the probe ready for the next reader.
+fn probe_after(c: &LbCase, pre: Option<&LbCase>) -> (LineBufferProbe, Vec<Step>) {
     let mut probe = probe_new(c);
+    let mut log = vec![];
+    if let Some(p) = pre {
+        let mut rdr = ScriptedReader::new(&p.inp, &p.script);
+        for op in &p.ops {
+            match op {
+                LbOp::Fill => {
+                    let _ = probe.fill(&mut rdr);
+                }
+                LbOp::Consume(n) => {
+                    if *n <= probe.buffer().len() {
+                        probe.consume(*n);
+                    }
+                }
+            }
+        }
+        log = rdr.log;
+        probe.clear();
+    }
+    (probe, log)
+}
+
+pub fn gen_ops_after(rng: &mut Rng, c: &LbCase, pre: Option<&LbCase>) -> Vec<LbOp> {
+    let (mut probe, _) = probe_after(c, pre);
     let mut rdr = ScriptedReader::new(&c.inp, &c.script);
     let mut ops = vec![];
     let style = rng.below(4);
@@ -411,7 +477,18 @@ pub fn gen_ops(rng: &mut Rng, c: &LbCase) -> Vec<LbOp> {
 
 /// Run the case on the real `LineBuffer`; returns the states after each op and the read log.
 pub fn run_probe(c: &LbCase) -> (Vec<LbState>, Vec<Step>, Vec<usize>) {
-    let mut probe = probe_new(c);
+    let (st, log, asked, _) = run_probe_after(c, None);
+    (st, log, asked)
+}
+
+/// Same after an earlier reader `pre` on the same buffer (then `clear`); also returns `pre`'s read log.
+pub fn run_probe_after(c: &LbCase, pre: Option<&LbCase>) -> (Vec<LbState>, Vec<Step>, Vec<usize>, Vec<Step>) {
+    let (st, log, asked, plog) = run_probe_impl(c, pre);
+    (st, log, asked, plog)
+}
+
+fn run_probe_impl(c: &LbCase, pre: Option<&LbCase>) -> (Vec<LbState>, Vec<Step>, Vec<usize>, Vec<Step>) {
+    let (mut probe, plog) = probe_after(c, pre);
     let mut rdr = ScriptedReader::new(&c.inp, &c.script);
     let mut out = vec![];
     for op in &c.ops {
@@ -446,28 +523,51 @@ pub fn run_probe(c: &LbCase) -> (Vec<LbState>, Vec<Step>, Vec<usize>) {
             allocated: probe.allocated(),
         });
     }
-    (out, rdr.log, rdr.asked)
+    (out, rdr.log, rdr.asked, plog)
 }
 
 /// Correspondence + property check of one roll-buffer case.
 /// `prop` is "C02" / "C14" (for the messages), `driver_cmd` the model command prefix ("c02" / "c14").
 pub fn check_lb_case(case: &str, c: &LbCase, cmd: &str, drv: &mut Driver, rep: &mut Report) {
+    check_lb_case_after(case, c, None, cmd, drv, rep)
+}
+
+/// `pre`: an earlier reader served by the same buffer (`LineBufferReader::new` clears it in between);
+/// everything checked is about the second reader `c`.
+pub fn check_lb_case_after(case: &str, c: &LbCase, pre: Option<&LbCase>, cmd: &str, drv: &mut Driver, rep: &mut Report) {
     rep.eval();
-    let (states, log, _asked) = run_probe(c);
+    let (states, log, _asked, plog) = run_probe_after(c, pre);
+    if pre.is_some() {
+        rep.branch("lb:reused-buffer");
+    }
     // ---- impl vs model (the model is fed the sizes the reader really returned)
     let imp: Vec<String> = states
         .iter()
         .map(|s| if s.res == "panic" { "panic".to_string() } else { s.text() })
         .collect();
     let imp = imp.join(";");
-    let req = format!(
-        "{}.lb {} {} (script {}) (ops {})",
-        cmd,
-        c.cfg_sx(),
-        hex(&c.inp),
-        script_str(&log).replace(',', " ").replace('-', ""),
-        ops_str(&c.ops).replace(',', " ").replace('-', "")
-    );
+    let sx = |x: String| x.replace(',', " ").replace('-', "");
+    let req = match pre {
+        None => format!(
+            "{}.lb {} {} (script {}) (ops {})",
+            cmd,
+            c.cfg_sx(),
+            hex(&c.inp),
+            sx(script_str(&log)),
+            sx(ops_str(&c.ops))
+        ),
+        Some(p) => format!(
+            "{}.lb2 {} {} (script {}) (ops {}) {} (script {}) (ops {})",
+            cmd,
+            c.cfg_sx(),
+            hex(&p.inp),
+            sx(script_str(&plog)),
+            sx(ops_str(&p.ops)),
+            hex(&c.inp),
+            sx(script_str(&log)),
+            sx(ops_str(&c.ops))
+        ),
+    };
     let model = drv.ask(&req);
     if imp != model {
         rep.violation(Violation {
